@@ -63,6 +63,10 @@ claim("C16", "Coq proof (port of create_output_name: no dot-dot-slash, no leadin
       "Proof: for every byte string as member name, every case-folding function, both separator conventions, UTF-8 or not: the name after 'dir/' contains no '../' or '..\\', does not start with a slash, has no NUL and fits 4 bytes per input byte (5 theorems, closed). The port is compared with the C function on generated names. The file-system half (ensure_filepath / can_write / fopen never going through a symlink in the archive-controlled part) is checked only by running the built binary in sandbox trees with planted live and dangling links and comparing the tree outside the destination before and after; races with other processes and the kernel are outside any model.",
       NOTE, "4/C16")
 
+claim("C19", "Coq proof by computation over the regenerated list of static-storage objects (nm + clang AST: no writable object is stored to or escapes) + interleaved-instances oracle",
+      "Proof: Gen/Globals.v is regenerated on every run from the objects compiled from the working tree and the clang AST of each unit; the theorem (vm_compute) says no object in a writable section is ever stored to or has its address passed to a non-const pointer, and that the known lookup tables are present and read-only. A data race needs shared mutable state; its absence is what is proved. Dynamic part: instances driven in interleaved order in one process must return what they return alone (LZX E8, Quantum, MSZIP, CHM). Real thread schedules, and state reachable only through the caller's mspack_system, are outside the model.",
+      NOTE, "4/C19")
+
 def main():
     props = [json.loads(l)["id"] for l in open(os.path.join(V, "properties.jsonl"))]
     # only claim what has a check module
